@@ -239,7 +239,7 @@ def gen_cases(ctx, n):
     t, r = (lambda x: ('t', x)), (lambda x: ('r', x))
     eco_bases = [G.Gram(["a", "b"], [("S", [[t("a"), r("S")], [t("b")]])]),
                  G.Gram(["a", "c"], [("S", [[t("a")], [r("T")]]), ("T", [[t("c")], []])])]
-    n_eco = ctx.n(300, 2400)
+    n_eco = ctx.n(120, 2400)
     pool = [g for g in grams if not getattr(g, "raw", False)]
     eco_bases += rng.sample(pool, min(len(pool), max(0, n_eco - 3 * len(eco_bases))))
     for i, g in enumerate(eco_bases):
